@@ -441,7 +441,10 @@ Proc(e) ==
                 covered == Get0(aux.synced, m, FALSE)
             IN [base EXCEPT !.aux = [aux EXCEPT !.dur = Set(aux.dur, m, ok /\ known),
                                                 !.synced = Set(aux.synced, m, syn \/ (covered /\ ok))],
-                            !.drift = IF Has(e, "wr") /\ ~FlushOrderOK(e.wr) THEN "flush write order differs from AbyBuf (val, key, htx; ascending chunk-aligned offsets)" ELSE "",
+                            !.drift = IF Has(e, "wr") /\ ~FlushOrderOK(e.wr) THEN "flush write order differs from AbyBuf (val, key, htx; ascending chunk-aligned offsets)"
+                                      \* AbyBuf!mdirty is the crate's is_dirty(): cleared by a successful flush/sync, kept by a failed one
+                                      ELSE IF Has(e, "dirty") /\ e.dirty # ~ok /\ ~(ok = FALSE /\ ~aux.fault) THEN "is_dirty() after flush/sync differs from AbyBuf"
+                                      ELSE "",
                             !.fails = (IF ok \/ aux.fault THEN {} ELSE {"C03.outcome"})
                                       \cup (IF e.ev = "flush" \/ ~ok \/ syn \/ covered THEN {} ELSE {"C03.sync_calls"})]
       [] e.ev \in {"db_sync_all", "db_sync_data"} ->
@@ -595,6 +598,9 @@ Proc(e) ==
             \* a signature byte of one of the files was changed / a foreign file swapped in
             LET mid == e.map IN
             IF mid \in DOMAIN meta THEN [base EXCEPT !.meta = Set(meta, mid, [meta[mid] EXCEPT !.foreign = e.foreign])] ELSE base
+      [] e.ev = "read_fill_buffer" ->
+            \* C15: no effect on the contract state; must succeed on a healthy file system
+            [base EXCEPT !.fails = OutcomeFails(e)]
       [] OTHER -> base
 
 Next ==
